@@ -197,6 +197,56 @@ def edge_size_cases():
                 yield {"g": g, "h": partner, "seed": n, "order": None, "order_form": "array", "same": partner == g}
 
 
+def _family_graph(kind, n):
+    if kind == "cycle":
+        return {"n": n, "edges": [[min(i, (i + 1) % n), max(i, (i + 1) % n)] for i in range(n)] if n >= 3 else [[0, 1]][: n - 1], "kind": "cycle"}
+    if kind == "path":
+        return {"n": n, "edges": [[i, i + 1] for i in range(n - 1)], "kind": "path"}
+    return {"n": n, "edges": [[0, i] for i in range(1, n)], "kind": "star"}
+
+
+def family_cases():
+    """all pairs of cycles, paths and stars with 3..25 vertices (the regular families for which natural maps are known)"""
+    kinds = ["cycle", "path", "star"]
+    for ka in kinds:
+        for kb in kinds:
+            if kinds.index(kb) < kinds.index(ka):
+                continue
+            for n in range(3, 26):
+                for m in range(n, 26):
+                    yield {"g": {"kind": ka, "n": n}, "h": {"kind": kb, "n": m}, "seed": 7 * n + m, "order": None, "order_form": "array"}
+
+
+def _scaling_distortion(DX, DY):
+    """distortion of the map i -> floor(i * m / n) (a real map, so half of it bounds the one-sided minimum from above)"""
+    n, m = len(DX), len(DY)
+    f = [min(m - 1, (i * m) // n) for i in range(n)]
+    return max(abs(DX[a][b] - DY[f[a]][f[b]]) for a in range(n) for b in range(n))
+
+
+def check_family(case, ctx):
+    g = _family_graph(case["g"]["kind"], case["g"]["n"])
+    h = _family_graph(case["h"]["kind"], case["h"]["n"])
+    DX, DY = G.dist(g), G.dist(h)
+    ctx.label("%s/%s" % (case["g"]["kind"], case["h"]["kind"]))
+    ctx.nontrivial(g["n"] >= 8 and (g["n"], case["g"]["kind"]) != (h["n"], case["h"]["kind"]))
+    lb, ub = call(ctx, case, g, h)
+    rng = random.Random(case["seed"])
+    upper = 0.5 * max(min(_scaling_distortion(DX, DY), mgh.greedy_upper(DX, DY, rng, tries=6)),
+                      min(_scaling_distortion(DY, DX), mgh.greedy_upper(DY, DX, rng, tries=6)))
+    ctx.require(lb <= upper, "lower_bound_exceeds_a_real_distortion",
+                lambda: "%s_%d vs %s_%d: lb=%r > %r = half the distortion of explicit maps in both directions (ub=%r)"
+                % (case["g"]["kind"], g["n"], case["h"]["kind"], h["n"], lb, upper, ub))
+    if max(g["n"], h["n"]) <= 12:
+        try:
+            true = mgh.exact(DX, DY)
+        except mgh.Budget:
+            return
+        ctx.require(lb <= true <= ub, "does_not_bracket", lambda: "%s_%d vs %s_%d: (%r, %r) vs exact %r" % (case["g"]["kind"], g["n"], case["h"]["kind"], h["n"], lb, ub, true))
+    if (case["g"]["kind"], g["n"]) == (case["h"]["kind"], h["n"]):
+        ctx.require(lb == 0, "isomorphic_lower_bound_positive", lambda: "identical %s_%d: lb=%r" % (case["g"]["kind"], g["n"], lb))
+
+
 _ENUM = None
 
 
@@ -231,10 +281,10 @@ def VALID_DEFAULT(case):
 
 
 CLAUSES = [
-    Clause("bracket", s_pair(1, 12), check_bracket, quick=10000, thorough=120000, fuzz=True, floors={"lb>trivial": 0.02},
+    Clause("bracket", s_pair(1, 12), check_bracket, quick=8000, thorough=120000, fuzz=True, floors={"lb>trivial": 0.02},
            rule="1..12 vertices each: lb <= exact mGH <= ub, both non-negative half-integers; non-trivial = both graphs >= 3 vertices, max "
                 "diameter >= 2 and exact distance > 0"),
-    Clause("related_pairs", s_related(), check_bracket, quick=5000, thorough=80000,
+    Clause("related_pairs", s_related(), check_bracket, quick=4000, thorough=80000,
            rule="G (4..10 vertices) against a relabelled copy of G after 1..3 local edits (move / add / delete a leaf, add a chord, subdivide an "
                 "edge): similar graphs whose diameters differ by 0..2, true distance mostly 0.5..1.5; same oracle and non-triviality rule as bracket"),
     Clause("isomorphic", s_iso(), check_iso, quick=4000, thorough=60000,
@@ -251,6 +301,10 @@ CLAUSES = [
            rule="DETERMINISTIC slice: stars and hub+clique graphs with 127..151 vertices (more than 127 vertices at one distance); paths and caterpillars (thorough: also random trees with and without chords) with 126..130 "
                 "vertices, i.e. diameters at the int8 / int16 boundary, against a 100-path, a relabelled copy of themselves and a 5-star; "
                 "same validity predicates as big_graphs"),
+    Clause("family_slice", cases=family_cases, check=check_family,
+           rule="EXHAUSTIVE over the regular families: all pairs of cycles, paths and stars with 3..25 vertices (1656 pairs): lb <= ub, "
+                "half-integrality, lb <= half the distortion of the scaling map i -> floor(i*m/n) and of greedy maps in both directions, "
+                "exact bracket when both graphs have <= 12 vertices; non-trivial = >= 8 vertices and different graphs"),
     Clause("small_slice", cases=slice_cases, check=check_slice,
            rule="EXHAUSTIVE: all 44 x 44 ordered pairs of connected labelled graphs on <= 4 vertices x 3 RNG seeds; oracle cross-checked against "
                 "itertools.product brute force on every pair"),
